@@ -177,7 +177,7 @@ fn packed_overlap() {
         for shape in [MolecularShape2::circle(), MolecularShape2::from_trimer(0.637556, 120., 1.), MolecularShape2::from_trimer(1.0, 180., 1.9)].iter() {
             let st0 = PackedState::from_group(shape.clone(), &wg).unwrap();
             let n = st0.total_shapes() as f64;
-            for _ in 0..1500 {
+            for _ in 0..4000 {
                 let st = st0.clone();
                 let mut basis = st.generate_basis();
                 let nb = basis.len();
@@ -248,6 +248,205 @@ fn lattice_energy() {
                 assert!((got - want).abs() <= 1e-9 * (1. + want.abs()), "WITNESS PotentialState {} {}: score {} but minus the lattice energy per molecule is {}; parameters {:?}",
                     gname, shape, got, want, st.generate_basis().iter().map(|b| b.get_value()).collect::<Vec<_>>());
             }
+        }
+    }
+}
+
+/// V:opt:set_sampled:* / V:opt:sample:* — one proposal: in range, at most step*range/2 away, undone exactly by reset_value
+#[test]
+fn basis_set_sampled() {
+    let mut r = rng();
+    for _ in 0..N {
+        let (lo, hi) = { let (p, q) = (pick(&mut r, 2.), pick(&mut r, 2.)); (p.min(q), p.max(q)) };
+        let v0 = if hi > lo { r.gen_range(lo, hi) } else { lo };
+        let cell = SharedValue::new(v0);
+        let mut b = StandardBasis::new(&cell, lo, hi);
+        let step = match r.gen_range(0, 4) { 0 => 0.01, 1 => 1., 2 => r.gen_range(0., 1.), _ => r.gen_range(0., 8.) };
+        b.set_sampled(&mut r, step);
+        let v1 = cell.get_value();
+        assert!(lo <= v1 && v1 <= hi, "WITNESS StandardBasis [{}, {}] value {}: set_sampled(step {}) stored {} which is outside the range", lo, hi, v0, step, v1);
+        let bound = step * (hi - lo) / 2.;
+        assert!((v1 - v0).abs() <= bound * (1. + 1e-9) + 1e-12, "WITNESS StandardBasis [{}, {}] value {}: set_sampled(step {}) moved the value by {} > step*range/2 = {}", lo, hi, v0, step, (v1 - v0).abs(), bound);
+        b.reset_value();
+        assert!(cell.get_value().to_bits() == v0.to_bits(), "WITNESS StandardBasis [{}, {}] value {}: after set_sampled(step {}) and reset_value() the cell holds {}", lo, hi, v0, step, cell.get_value());
+    }
+}
+
+// ---- the optimiser against a scripted state (C05 C06 C07 C08 C10 C19 C20) ----
+mod scripted {
+    use std::sync::{Arc, Mutex};
+    use anyhow::Error;
+    use serde::Serialize;
+    use svg::Document;
+    use packing::traits::*;
+    use packing::{SharedValue, StandardBasis};
+
+    pub type Log = Arc<Mutex<Vec<(Vec<f64>, Option<f64>)>>>;
+
+    /// k parameters with their own ranges; the score is a pure function of (mode, parameters, number of evaluations so far)
+    #[derive(Debug, Serialize)]
+    pub struct Scripted {
+        pub xs: Vec<SharedValue>,
+        #[serde(skip)] pub lo: Vec<f64>,
+        #[serde(skip)] pub hi: Vec<f64>,
+        #[serde(skip)] pub mode: u8,
+        #[serde(skip)] pub log: Log,
+    }
+    pub fn score_at(mode: u8, xs: &[f64], evals: usize) -> Option<f64> {
+        let bowl = -xs.iter().map(|x| x * x).sum::<f64>();
+        match mode {
+            0 => Some(bowl),
+            1 => Some(evals as f64),
+            2 => {
+                // pseudo-random landscape with undefined and not-a-number regions
+                let mut h: u64 = 0x9e3779b97f4a7c15;
+                for x in xs { h = (h ^ x.to_bits()).wrapping_mul(0x100000001b3).rotate_left(23); }
+                match h % 20 { 0 | 1 => None, 2 => Some(std::f64::NAN), _ => Some(((h >> 11) as f64 / (1u64 << 53) as f64) * 2. - 1.) }
+            }
+            // plateaus: many proposals have exactly the current score
+            _ => Some((bowl * 4.).floor()),
+        }
+    }
+    impl Clone for Scripted {
+        fn clone(&self) -> Self {
+            Scripted { xs: self.xs.iter().map(|x| SharedValue::new(x.get_value())).collect(), lo: self.lo.clone(), hi: self.hi.clone(),
+                       mode: self.mode, log: Arc::new(Mutex::new(vec![])) }
+        }
+    }
+    impl PartialEq for Scripted { fn eq(&self, o: &Self) -> bool { self.values() == o.values() } }
+    impl Eq for Scripted {}
+    impl PartialOrd for Scripted { fn partial_cmp(&self, o: &Self) -> Option<std::cmp::Ordering> { self.values().partial_cmp(&o.values()) } }
+    impl Ord for Scripted { fn cmp(&self, o: &Self) -> std::cmp::Ordering { self.partial_cmp(o).unwrap() } }
+    impl ToSVG for Scripted { type Value = Document; fn as_svg(&self) -> Document { Document::new() } }
+    impl Scripted {
+        pub fn values(&self) -> Vec<f64> { self.xs.iter().map(|x| x.get_value()).collect() }
+    }
+    impl State for Scripted {
+        fn score(&self) -> Option<f64> {
+            let v = self.values();
+            let mut log = self.log.lock().unwrap();
+            let s = score_at(self.mode, &v, log.len());
+            log.push((v, s));
+            s
+        }
+        fn generate_basis(&self) -> Vec<StandardBasis> {
+            self.xs.iter().enumerate().map(|(i, x)| StandardBasis::new(x, self.lo[i], self.hi[i])).collect()
+        }
+        fn total_shapes(&self) -> usize { 1 }
+        fn as_positions(&self) -> Result<String, Error> { Ok(String::new()) }
+    }
+}
+
+#[derive(Clone, Debug)]
+struct OptCfg { seed: u64, steps: u64, inner: u64, kt_start: f64, kt_finish: Option<f64>, kt_ratio: Option<f64>, max_step: f64, conv: Option<f64> }
+
+fn run_scripted(c: &OptCfg, mode: u8, x0: &[f64], lo: &[f64], hi: &[f64]) -> Result<(Vec<(Vec<f64>, Option<f64>)>, Vec<f64>), String> {
+    use std::sync::{Arc, Mutex};
+    let log: scripted::Log = Arc::new(Mutex::new(vec![]));
+    let st = scripted::Scripted { xs: x0.iter().map(|x| SharedValue::new(*x)).collect(), lo: lo.to_vec(), hi: hi.to_vec(), mode, log: log.clone() };
+    let mut b = packing::BuildOptimiser::default();
+    b.seed(c.seed).steps(c.steps).inner_steps(c.inner).kt_start(c.kt_start).kt_ratio(c.kt_ratio).max_step_size(c.max_step).convergence(c.conv);
+    // kt_finish has no unsetting method: Default has Some(0.001)
+    if let Some(f) = c.kt_finish { b.kt_finish(f); }
+    let res = std::panic::catch_unwind(std::panic::AssertUnwindSafe(|| { let out = b.build().optimise_state(st); let v: Vec<f64> = out.generate_basis().iter().map(|b| b.get_value()).collect(); v }));
+    let l = log.lock().unwrap().clone();
+    match res { Ok(v) => Ok((l, v)), Err(_) => Err(format!("panicked after {} evaluations", l.len())) }
+}
+
+/// Replays the evaluation log: every evaluation must be explained as one proposal from the held state, with the forced
+/// accept/reject decisions of the Metropolis rule; returns the surviving (held, current score) hypotheses.
+fn explain(log: &[(Vec<f64>, Option<f64>)], lo: &[f64], hi: &[f64], max_step: f64, kt_zero: bool) -> Result<Vec<(Vec<f64>, f64)>, String> {
+    let bits = |v: &Vec<f64>| v.iter().map(|x| x.to_bits()).collect::<Vec<u64>>();
+    let s0 = match log[0].1 { Some(s) => s, None => return Err("the starting state has no score".into()) };
+    let mut hyps: Vec<(Vec<f64>, f64)> = vec![(log[0].0.clone(), s0)];
+    for (i, (p, s)) in log.iter().enumerate().skip(1) {
+        for j in 0..p.len() {
+            if !(lo[j] <= p[j] && p[j] <= hi[j]) { return Err(format!("evaluation {}: parameter {} = {} is outside [{}, {}]", i, j, p[j], lo[j], hi[j])); }
+        }
+        let mut next: Vec<(Vec<f64>, f64)> = vec![];
+        let mut why = String::new();
+        for (held, cur) in hyps.iter() {
+            let diff: Vec<usize> = (0..p.len()).filter(|&j| p[j].to_bits() != held[j].to_bits()).collect();
+            if diff.len() > 1 { why = format!("evaluation {}: proposal {:?} differs from the held state {:?} in {} parameters", i, p, held, diff.len()); continue; }
+            if let Some(&j) = diff.first() {
+                let bound = max_step * (hi[j] - lo[j]) / 2.;
+                if (p[j] - held[j]).abs() > bound * (1. + 1e-9) + 1e-12 {
+                    why = format!("evaluation {}: parameter {} moved from {} to {}, by more than max_step*range/2 = {}", i, j, held[j], p[j], bound); continue;
+                }
+            }
+            let (may_accept, may_reject) = match s {
+                None => (false, true),
+                Some(v) if v.is_nan() => (false, true),
+                Some(v) if *v >= *cur => (true, false),
+                Some(_) if kt_zero => (false, true),
+                Some(_) => (true, true),
+            };
+            if may_accept { let h = (p.clone(), s.unwrap()); if !next.iter().any(|n| bits(&n.0) == bits(&h.0) && n.1.to_bits() == h.1.to_bits()) { next.push(h); } }
+            if may_reject { let h = (held.clone(), *cur); if !next.iter().any(|n| bits(&n.0) == bits(&h.0) && n.1.to_bits() == h.1.to_bits()) { next.push(h); } }
+        }
+        if next.is_empty() { return Err(why); }
+        if next.len() > 256 { return Ok(vec![]); }
+        hyps = next;
+    }
+    Ok(hyps)
+}
+
+/// V:opt:optimise_state:* / V:opt:accept_score:* / V:opt:build:* — the optimiser's contract observed from a recording State
+#[test]
+fn optimiser_contract() {
+    let mut r = rng();
+    for _ in 0..4000 {
+        let k = r.gen_range(1, 4);
+        let mode = r.gen_range(0, 4) as u8;
+        let lo: Vec<f64> = (0..k).map(|_| pick(&mut r, 2.).min(0.)).collect();
+        let hi: Vec<f64> = (0..k).map(|j| lo[j] + r.gen_range(0.1, 4.)).collect();
+        let mut x0: Vec<f64>;
+        loop {
+            x0 = (0..k).map(|j| r.gen_range(lo[j], hi[j])).collect();
+            if let Some(s) = scripted::score_at(mode, &x0, 0) { if !s.is_nan() { break; } }
+        }
+        let steps = match r.gen_range(0, 4) { 0 => r.gen_range(0, 8), _ => r.gen_range(1, 400) };
+        let c = OptCfg {
+            seed: r.gen(), steps, inner: match r.gen_range(0, 4) { 0 => r.gen_range(0, 3), 1 => r.gen_range(1, 600), _ => r.gen_range(1, 40) },
+            kt_start: match r.gen_range(0, 3) { 0 => 0., 1 => 0.1, _ => r.gen_range(0., 2.) },
+            kt_finish: if r.gen() { Some(r.gen_range(0., 0.1)) } else { None },
+            kt_ratio: match r.gen_range(0, 4) { 0 => Some(r.gen_range(0., 1.)), 1 => Some(1.), _ => None },
+            max_step: match r.gen_range(0, 4) { 0 => 0.01, 1 => r.gen_range(0., 1.), 2 => 1., _ => r.gen_range(1., 6.) },
+            conv: None,
+        };
+        let desc = format!("Scripted(mode {}, x0 {:?}, lo {:?}, hi {:?}) with {:?}", mode, x0, lo, hi, c);
+        let (log, fin) = match run_scripted(&c, mode, &x0, &lo, &hi) { Ok(x) => x, Err(e) => panic!("WITNESS {}: {}", desc, e) };
+        // C20: amount of work (one starting evaluation, the proposals, one closing evaluation)
+        let proposals = log.len() as u64 - 2;
+        assert!(proposals <= c.steps && proposals + c.inner.max(1) >= c.steps, "WITNESS {}: {} proposals evaluated for steps = {}, inner_steps = {}", desc, proposals, c.steps, c.inner);
+        // C06 C07 C08 C19 (and C05 through the forced rejections at zero temperature)
+        let hyps = match explain(&log, &lo, &hi, c.max_step, c.kt_start == 0.) { Ok(h) => h, Err(e) => panic!("WITNESS {}: {}", desc, e) };
+        if !hyps.is_empty() {
+            let fb: Vec<u64> = fin.iter().map(|x| x.to_bits()).collect();
+            let hit = hyps.iter().find(|h| h.0.iter().map(|x| x.to_bits()).collect::<Vec<u64>>() == fb);
+            assert!(hit.is_some(), "WITNESS {}: the returned parameters {:?} are not those of the last accepted proposal {:?}", desc, fin, hyps.iter().map(|h| h.0.clone()).collect::<Vec<_>>());
+            if c.kt_start == 0. && mode != 1 {
+                let (s_in, s_out) = (log[0].1.unwrap(), hit.unwrap().1);
+                assert!(s_out >= s_in, "WITNESS {}: zero temperature, score went from {} to {}", desc, s_in, s_out);
+            }
+        }
+        if c.kt_start == 0. && mode != 1 {
+            let s_out = scripted::score_at(mode, &fin, 0);
+            assert!(s_out.map_or(false, |s| s >= log[0].1.unwrap()), "WITNESS {}: zero temperature, score went from {:?} to {:?}", desc, log[0].1, s_out);
+        }
+        // C10 / C20: same seed, same run; with a convergence threshold the run is a prefix of the run without
+        let (log2, fin2) = run_scripted(&c, mode, &x0, &lo, &hi).unwrap_or((vec![], vec![]));
+        let same = |a: &[(Vec<f64>, Option<f64>)], b: &[(Vec<f64>, Option<f64>)]| a.len() == b.len() && a.iter().zip(b).all(|(x, y)|
+            x.0.iter().map(|v| v.to_bits()).eq(y.0.iter().map(|v| v.to_bits())) && x.1.map(f64::to_bits) == y.1.map(f64::to_bits));
+        assert!(same(&log, &log2) && fin == fin2, "WITNESS {}: two runs with the same seed evaluated different proposals", desc);
+        let mut cc = c.clone();
+        cc.conv = Some(match r.gen_range(0, 3) { 0 => 1e-3, 1 => 0.5, _ => 1e9 });
+        let (logc, _) = match run_scripted(&cc, mode, &x0, &lo, &hi) { Ok(x) => x, Err(e) => panic!("WITNESS {} convergence {:?}: {}", desc, cc.conv, e) };
+        assert!(logc.len() <= log.len() && same(&logc, &log[..logc.len()]), "WITNESS {}: with convergence {:?} the run is not a prefix of the run without", desc, cc.conv);
+        if logc.len() < log.len() {
+            let inner = c.inner.min(c.steps).max(1);
+            let m = logc.len() as u64 - 1;
+            assert!(m % inner == 0 && m >= 6 * inner, "WITNESS {}: with convergence {:?} the run stopped after {} proposals (inner loop {})", desc, cc.conv, m, inner);
         }
     }
 }
